@@ -11,7 +11,10 @@ COMMON_NOTE = (
     "Trusted base: go/packages + go/types + go/ssa (x/tools v0.29.0, vendored), the checker's own rule code, and the anchor table "
     "(an anchor that can no longer be resolved fails closed as VIOLATION rule=anchor-unresolved: a pure rename of an anchored "
     "function/field is the one behaviour-preserving edit that can make this check fire). _test.go files are not analysed. "
-    "Decides the listed structural clauses (necessary conditions), not the run-time behaviour."
+    "Decides the listed structural clauses (necessary conditions), not the run-time behaviour. The rules work on a normalised program "
+    "(private helpers spliced, stores forwarded, boolean and returned values threaded, loops in induction form, power-of-two rounding in "
+    "canonical form; DESIGN.md section 11), so that behaviour-preserving rewrites of the anchored code do not raise alarms; the residual "
+    "false alarms known today are listed in DESIGN.md section 12."
 )
 
 # id -> dict(claimed, text, technique, ref, note_extra) ; unclaimed: reason
@@ -58,7 +61,8 @@ P["C17"] = dict(
     text="The clauses of the terminal model that are visible in the code shape: exact special-byte dispatch with the documented action per case, "
          "every cursor store classified as inside the viewport (constant 1, clamped argument, guarded increment, wrap test), every cursor/viewport "
          "change followed by a recomputation of the derived buffer offset, and the offset formula itself (polynomial normal form). Equality with a "
-         "reference terminal over all byte streams, scrolling contents and buffer memory safety are not decided.",
+         "reference terminal over all byte streams, scrolling contents and buffer memory safety are not decided. "
+         "Added: (R4) the buffer-scrolling arm of lf moves exactly the viewport's lines up by one stride and blanks exactly viewportWidth cells.",
     technique="case-set exhaustiveness + SSA dominance facts per phi edge + must-pass-through + polynomial normal form",
     ref="DESIGN.md section 3, C17",
 )
@@ -86,7 +90,8 @@ P["C02"] = dict(
     text="Early allocator: success only for available regions of at least a page with inward rounding, success re-checks the cursor against the "
          "region end after every update, failure returns the out-of-memory error, the frame condition that makes replay exact (write set = "
          "{allocCount, lastAllocFrame}, read set closed, replay zeroes exactly that set after loading the bound), and the three admissible cursor "
-         "updates. Strict monotonicity and the kernel-jump case analysis are relational and not decided.",
+         "updates. Strict monotonicity and the kernel-jump case analysis are relational and not decided. "
+         "Added after seeding: (R2) the success signal is read off AllocFrame (error variable cleared / flag set), success is recorded only after lastAllocFrame <= regionEndFrame was re-established and the scan stops exactly there; (R5) the two cursor updates that can land on the kernel image are unreachable once the kernel-jump / outside-region edges are cut.",
     technique="read/write-set (frame condition) analysis + SSA dominance cuts + polynomial normal forms",
     ref="DESIGN.md section 3, C02",
 )
@@ -105,7 +110,8 @@ P["C04"] = dict(
          "Present), TLB flush of the changed page after every leaf write and of the recursive entry after every swap, swap/flush/operate/restore/"
          "flush on the inactive scenario and no entry write on the active scenario (the two tests are correlated, infeasible paths dropped), new "
          "levels allocated-then-zeroed with the allocation error returned untouched, error cell returned unmodified, region helpers map exactly "
-         "cdiv(size,4096) pages with page and frame advancing together. The recursive-mapping arithmetic of walk and 'other pages unchanged' are not decided.",
+         "cdiv(size,4096) pages with page and frame advancing together. The recursive-mapping arithmetic of walk and 'other pages unchanged' are not decided. "
+         "Added: (R6) the page count of MapRegion/IdentityMapRegion in induction form (trip count = cdiv(size,4096), page and frame advance by one) and no unguarded unsigned subtraction in it; (R7) paging geometry constants and the level/table loop of walk.",
     technique="SSA path ordering + correlated-condition scenario enumeration + polynomial normal forms",
     ref="DESIGN.md section 3, C04",
 )
@@ -123,7 +129,8 @@ P["C07"] = dict(
     text="Inductive cursor discipline of the reservation allocator (single writer, store = cursor - rounded size under rounded size <= cursor, "
          "success returns the new cursor, failures store nothing; page-aligned initial value), the unbounded-argument wrap rule on the size "
          "round-up in EarlyReserveRegion and MapRegion (found and fixed F4), and MapRegion's reserve-then-map structure with exactly cdiv(size,4096) "
-         "consecutive pages/frames. Disjointness over sequences follows from the inductive step; it is not separately mechanised.",
+         "consecutive pages/frames. Disjointness over sequences follows from the inductive step; it is not separately mechanised. "
+         "Added: (R3) the region loop in induction form and the wrap hazard of an unsigned subtraction in the page count (size-1 for size 0).",
     technique="writers-of + SSA dominance + unbounded-argument wrap rule (use-dominance) + polynomial normal forms",
     ref="DESIGN.md section 3, C07",
 )
@@ -134,7 +141,8 @@ P["C11"] = dict(
          "closedness of the argument-type dispatch between parseArg and parseSimpleArg, and the per-row facts the later passes rely on (named "
          "entries start with a NameString, deferred ones with PkgLen, Method's flags are attached argument #1). Computed by constant folding of the "
          "program's own lookup functions through go/ssa control flow. Scoping, relocation, forward references and multi-table loads - the "
-         "behavioural core of C11 - are NOT decided; the size of this claim is small and stated as such.",
+         "behavioural core of C11 - are NOT decided; the size of this claim is small and stated as such. "
+         "Added: (R4) every Parser field written while parsing is re-initialised at the start of each table; (R5) every site that reads a method's argument count uses flags & 7.",
     technique="exhaustiveness / table agreement by constant folding of SSA over finite domains",
     ref="DESIGN.md section 3, C11",
 )
@@ -143,7 +151,8 @@ P["C12"] = dict(
     text="Memory-safety skeleton of the AML reader: the byte reader is the only code that touches the table bytes and every one of its stores and "
          "indexes has the bounded form (inductive invariant offset, pkgEnd <= len(data)); every slice header laid over table memory has a length "
          "of one of three validated forms (found and fixed F7); every parseResult is propagated. Termination, recursion depth, absence of panics "
-         "and tree well-formedness after a failed parse are not decided.",
+         "and tree well-formedness after a failed parse are not decided. "
+         "Added: (R4) the merge/relocate resolve loop is bounded (pass counter, extra passes only under the bound, per-pass progress counter reset after mergeScopeDirectives has read it); (R5) an attached object is moved under a looked-up parent only after the parent's ancestor chain was compared with it (found and fixed F9: Device(AAAA.AAAA) made the tree a cycle and overflowed the stack).",
     technique="writers-of ownership + SSA dominance facts per phi edge + polynomial forms + result-use discipline",
     ref="DESIGN.md section 3, C12",
 )
@@ -152,7 +161,8 @@ P["C13"] = dict(
     text="Local step of the tree invariant: link fields are written only by the five surgery methods; every sibling-link store is one of the "
          "enumerated idioms (mutual link, splice-in, guarded bypass, reset, free-list push/pop) with its partner on every path; parent first/last "
          "indices and the node's parent index are maintained; free-list reuse before growth, refusal to free objects with children, freed slots "
-         "unreachable through ObjectAt. Lookup semantics of Find and the induction over histories are not decided.",
+         "unreachable through ObjectAt. Lookup semantics of Find and the induction over histories are not decided. "
+         "Added: (R4) dispatch structure of ObjectTree.Find (absolute, caret and multi-segment names use the downward-only lookup; single segments walk the parent chain comparing all name bytes).",
     technique="writers-of ownership + idiom-table pairing on all CFG paths + SSA dominance",
     ref="DESIGN.md section 3, C13",
 )
@@ -162,7 +172,8 @@ P["C15"] = dict(
          "and positive, no SSA operation allocates, every kernel call site of Printf/Fprintf is free of escape diagnostics); exhaustiveness of the "
          "integer type switch over all 11 built-in integer types with matching signedness (found and fixed F2); constant relations of the scratch "
          "buffer (single initialiser of maxBufSize+1 bytes, clamped width, guarded digit loop); argument bound test and the three markers. Exact "
-         "output text and 'never panics' in general are not decided.",
+         "output text and 'never panics' in general are not decided. "
+         "Added: (R5) every digit edge into the width variable carries 10*w + (ch - '0').",
     technique="effect analysis (go build -gcflags=-m escape diagnostics + allocating SSA operations over the call closure) + type-switch exhaustiveness",
     ref="DESIGN.md section 3, C15",
     note_extra="The escape analysis is the Go compiler's own (go build -gcflags=-m over /repo/kernel's working tree, offline); it compiles and does not execute the kernel.",
@@ -172,7 +183,8 @@ P["C19"] = dict(
     text="Guards and reachability of the console painters on all paths: range tests dominate every paint site and every scroll copy, painters are "
          "reachable only from their guarded entry point, the caller-supplied Fill rectangle never enters arithmetic before being bounded (found and "
          "fixed F5), all colour-depth switches partition identically and write no more bytes per pixel than bytesPerPixel, rows are addressed only "
-         "through fbOffset (logo area). Pixel-exact rendering, padding bytes and the glyph walk's memory safety are not decided.",
+         "through fbOffset (logo area). Pixel-exact rendering, padding bytes and the glyph walk's memory safety are not decided. "
+         "Added: (R6) VesaFbConsole.Scroll moves by lines*GlyphHeight*pitch bytes and the fill painters receive the clipped cell rectangle scaled by the glyph size.",
     technique="SSA dominance + who-may-call + unbounded-argument wrap rule + switch partition agreement + polynomial forms",
     ref="DESIGN.md section 3, C19",
 )
